@@ -685,8 +685,46 @@ func sfRtpBytes(el *sfEl, i int, vc string, aud string) []byte {
 	case "rtp_on_rtcp":
 		ch++
 		dg = proj.SfRtpDatagram("ok", 0, true, pt, seq, ts, ssrc, proj.SfPayload(codec, el.C))
+	case "rtcp_seq":
+		var out []byte
+		for _, d := range sfRtcpSeq(el.B, codec, pt, seq, ts, ssrc) {
+			c := ch
+			if d.rtcp {
+				c++
+			}
+			out = append(out, '$', byte(c), byte(len(d.b)>>8), byte(len(d.b)))
+			out = append(out, d.b...)
+		}
+		return out
 	}
 	return append([]byte{'$', byte(ch), byte(len(dg) >> 8), byte(len(dg))}, dg...)
+}
+
+type sfDg struct {
+	rtcp bool
+	b    []byte
+}
+
+// sfRtcpSeq: datagrams of a report interval in which the highest sequence number does not advance (see MC_Surfaces).
+func sfRtcpSeq(k, codec string, pt, seq int, ts uint32, ssrc uint32) []sfDg {
+	plc := "single"
+	if codec == "aac" {
+		plc = "auOk"
+	}
+	rtp := func(s int) sfDg {
+		return sfDg{false, proj.SfRtpDatagram("ok", 0, true, pt, s&0xffff, ts, ssrc, proj.SfPayload(codec, plc))}
+	}
+	sr := sfDg{true, proj.SfRtcp("sr", -1, ssrc)}
+	switch k {
+	case "dup":
+		return []sfDg{rtp(seq), sr, rtp(seq), sr, rtp(seq), rtp(seq), sr}
+	case "old":
+		return []sfDg{rtp(seq), sr, rtp(seq - 5), sr}
+	case "none":
+		return []sfDg{rtp(seq), sr, sr}
+	default: // wrap
+		return []sfDg{rtp(65535), sr, rtp(0), sr, rtp(0), sr, rtp(65535), sr}
+	}
 }
 
 func sfOk(o sfObs) bool { return o.Alive && len(o.Codes) == 1 && o.Codes[0] == 200 }
